@@ -950,3 +950,20 @@ Proof.
   { vm_compute. eexists. eexists. split; [reflexivity|]. repeat split. }
   exact E.
 Qed.
+
+(* "every stream the framework created internally is drained or closed", literally: whatever each
+   consumer does with its handle — close it, or read it to EOF — every stream that existed during any
+   call of a finished run is closed or drained at its source *)
+Lemma every_stream_drained_or_closed_s : forall (drains : handle -> bool) g cfg start tms out dropped st s',
+  NoDup (all_keys g) -> ~ In kEND (all_keys g) ->
+  (g_dag g = true -> covered g = true /\ all_finished g st = true) ->
+  (g_dag g = false -> dropped = [] /\ g_eager g = false) ->
+  run_int g cfg start tms = Ok (SDone out dropped st) ->
+  consume out (rs_store st) = Ok s' ->
+  forall h, created (s_hist s') h -> sclosed drains (s_hist s') h \/ sdrained drains (s_hist s') h.
+Proof.
+  intros drains g cfg start tms out dropped st s' Hn He Hd Hp H Hc h Hh.
+  apply released_closed_or_drained.
+  destruct (every_stream_released_resumed_s g cfg start tms out dropped st s' Hn He Hd Hp H Hc) as (_ & Hrel).
+  now apply Hrel.
+Qed.
